@@ -17,6 +17,15 @@ CHECKS = {
         "Trusted: CPython list semantics as reference; unique-token items; bound = list length cap (4 quick / 6 thorough).",
         "DESIGN.md §4 C16",
     ),
+    "C14": (
+        MC,
+        "explicit-state BFS over connect/disconnect/emit/kill histories on the real urwid.signals with behaviour-carrying handlers, lock-step reference connection list",
+        "All histories up to the depth bound over 32 connect variants (handler behaviour x argument style), disconnect by key/args, emit on "
+        "three (sender, name) pairs, weak-argument death and sender drop are executed on the real Signals object; each emit is judged "
+        "against an ordered list of live connections with per-emit bookkeeping of what changed during the emit.",
+        "Trusted: CPython refcount semantics for weakref callbacks; bound = depth 4/5, <= 3/4 live connections, recursion depth 1.",
+        "DESIGN.md §4 C14",
+    ),
 }
 
 PENDING_REASON = "check not built yet in this round (see DESIGN.md Appendix B build order); no claim is made"
